@@ -56,8 +56,8 @@ func main() {
 	cases(r, "b32/roundtrip", r.N(800, 30000), ev.Opt{HangViolation: true, MaxCaseSeconds: 60}, roundtripCase)
 	cases(r, "b32/bytes", r.N(513+6000, 513+300000), ev.Opt{HangViolation: true, MaxCaseSeconds: 60}, bytesCase)
 	cases(r, "b32/bytes4", r.N(1024, 65536), ev.Opt{HangViolation: true, MaxCaseSeconds: 60}, bytes4Case)
-	cases(r, "id/gen", r.N(3000, 100000), ev.Opt{HangViolation: true, MaxCaseSeconds: 60, AlwaysLog: true}, idCase)
-	cases(r, "str/gen", r.N(8000, 300000), ev.Opt{HangViolation: true, MaxCaseSeconds: 60}, strCase)
+	cases(r, "id/gen", r.N(3000, 60000), ev.Opt{HangViolation: true, MaxCaseSeconds: 60, AlwaysLog: true}, idCase)
+	cases(r, "str/gen", r.N(8000, 250000), ev.Opt{HangViolation: true, MaxCaseSeconds: 60}, strCase)
 	cases(r, "count/gen", r.N(5000, 200000), ev.Opt{HangViolation: true, MaxCaseSeconds: 60}, countCase)
 	cases(r, "count/wide", r.N(5000, 200000), ev.Opt{HangViolation: true, MaxCaseSeconds: 60}, countWideCase)
 	cases(r, "count/pow32", r.N(60, 3000), ev.Opt{HangViolation: true, MaxCaseSeconds: 60}, countPow32Case)
